@@ -335,6 +335,12 @@ isal_aes_gcm_dec_256_update(const struct isal_gcm_key_data *key_data,
         if (len > ISAL_GCM_MAX_LEN)
                 return ISAL_CRYPTO_ERR_CIPH_LEN;
 #endif
+
+#ifdef FIPS_MODE
+        if (isal_self_tests())
+                return ISAL_CRYPTO_ERR_SELF_TEST;
+#endif
+
         _aes_gcm_dec_256_update(key_data, context_data, out, in, len);
 
         return 0;
